@@ -4,14 +4,14 @@ without `<parameters>` / `<workflow::task>` markers and without families (famili
 
 Two models, tied to the code by the same correspondence runs:
 
-* the *text* model `parseText : Str → Except Err Result` — a line-by-line port of `parse_graph`,
+* the *text* model `parseText : Str → Except Err St` — a line-by-line port of `parse_graph`,
   `_proc_dep_pair`, `_compute_triggers`, `_set_triggers`, `_set_output_opt` on character lists, with
   hand matchers for the regular expressions (character classes and look-around sets come from
   `Generated/GraphTables.lean`, regenerated from the live source on every run).  It reproduces what the
   code does with *any* text, malformed ones included;
-* the *structure* model `parseStruct : List (List (Tree Node)) → Option SResult` on graph ASTs
-  (lines = chains of expression trees): chain → pairs, end-of-chain `:succeeded` inference, trigger
-  and optionality declarations folded into the tables.
+* the *structure* model `parseStruct : List SLine → Option St` on graph ASTs (a line = a lone
+  conjunction of nodes or a chain `head => c₁ => c₂ ...` with an expression tree as head): chain → pairs,
+  end-of-chain `:succeeded` inference, trigger and optionality declarations folded into the tables.
 
 `Generated.GraphTables` also carries four behaviour flags probed on the live parser; each one switches
 the model between the behaviour of the unchanged code and that of a recorded repair
